@@ -52,6 +52,8 @@ def _install_reference_methods():
     R.isColor = lambda self, c: (self._o.nTrk % 3) == c
     R.t_color = lambda self: self._o.nTrk % 3
     R.t_float_as_double = lambda self: self._o.q
+    R.dm_int = property(lambda self: self._o.nTrk + 10)
+    R.dm_double = property(lambda self: self._o.pt * 2 + 1)
 
 
 _install_reference_methods()
@@ -90,15 +92,16 @@ def gen_level(i, wrap, next_link, terminals=True, extra=""):
         for tn, (ct, body, _decl, _) in TERMINALS.items():
             lines.append(f"  {ct} {tn}() const {{ return {body}; }}")
         lines.append("  double take(double v) const { return v * 2; }")
+        lines.append("  int dm_int = 0; double dm_double = 0;      // public data members (read without a call)")
     if extra:
         lines.append(extra)
     if next_link is not None:
         j = i + 1
         lines += [f"  P{j} s{j}; W{j} w{j}; const W{j}* p{j}; const W{j}* const* pp{j};",
                   f"  {cxx_type(f'W{j}', next_link['k'])} {next_link['name']}() const {{ return {['w%d' % j, 'p%d' % j, 'pp%d' % j][next_link['k']]}; }}"]
-        lines.append(f"  void init(const vm::ObjData* dd) {{ d = dd; s{j}.init(dd); w{j} = {'W%d(&s%d)' % (j, j) if next_link['wrap'] else 's%d' % j}; p{j} = &w{j}; pp{j} = &p{j}; }}")
+        lines.append(f"  void init(const vm::ObjData* dd) {{ d = dd; dm_int = dd->nTrk + 10; dm_double = dd->pt * 2 + 1; s{j}.init(dd); w{j} = {'W%d(&s%d)' % (j, j) if next_link['wrap'] else 's%d' % j}; p{j} = &w{j}; pp{j} = &p{j}; }}")
     else:
-        lines.append("  void init(const vm::ObjData* dd) { d = dd; }")
+        lines.append("  void init(const vm::ObjData* dd) { d = dd; dm_int = dd->nTrk + 10; dm_double = dd->pt * 2 + 1; }")
     lines.append("};")
     return "\n".join(lines)
 
@@ -213,6 +216,18 @@ def build(backend, tier):
         add(f"const:chain2:k{k1}:d{d}:{tn}", f"j.a().{tn}()", md, pre, col_types=TERMINALS[tn][3])
         add(f"const:first:k{k1}:d{d}:{tn}", f"ds.Select(lambda e: e.Roots('A').Select(lambda j: j.a()).First().{tn}())", md, pre, whole=True)
         add(f"const:ifexp:k{k1}:d{d}:{tn}", f"(j.a().{tn}() if j.a().t_int() > 10 else j.a().{tn}())", md + (term_md("W1", "t_int", d) if tn != "t_int" else []), pre)
+    # ---- data members (no call) behind every object indirection x deref count: j.a().dm_int / j.a().dm_double
+    for k1, d in itertools.product((0, 1, 2), DEREFS):
+        links = [{"name": "a", "k": k1, "wrap": d or 0}]
+        kw = {} if d is None else {"deref_count": d}
+        pre = gen_prelude(backend, links)
+        md = [mti("Root", "a", return_type="W1" + "*" * k1), mti("W1", "dm_int", return_type="int", **kw)]
+        add(f"member:int:k{k1}:d{d}", "j.a().dm_int", md, pre, col_types={"int"})
+        add(f"member:arith:k{k1}:d{d}", "(j.a().dm_int + 1)", md, pre, col_types={"int"})
+        add(f"member:where:k{k1}:d{d}", "ds.Select(lambda e: e.Roots('A').Where(lambda j: j.a().dm_int > 10).Count())", md, pre, whole=True)
+        mdd = [mti("Root", "a", return_type="W1" + "*" * k1)] + ([mti("W1", "dm_double", return_type="double", **kw)] if d is not None else [])
+        add(f"member:double:k{k1}:d{d}", "j.a().dm_double", mdd, pre, col_types={"double"}, want_warning="dm_double" if d is None else None)
+        add(f"member:with-method:k{k1}:d{d}", "(j.a().dm_int, j.a().t_int())", md + term_md("W1", "t_int", d), pre)
     # const in front of a type whose NAME starts with one of the letters of "const" (and a namespace-qualified one)
     for alias, k1 in itertools.product(("tW1", "sW1", "cW1", "oW1", "nW1", "ns::tW1"), (0, 1)):
         links = [{"name": "a", "k": k1, "wrap": 0}]
